@@ -77,6 +77,11 @@ pub enum Step {
 	/// unwinding from an earlier panic (`std::thread::panicking()` is true); a
 	/// panic of the closure is caught inside the destructor
 	UnwindingDrop { inner: Box<Step> },
+	/// move the thread's key into the data of a lock owned by a freshly built
+	/// container (`cont`), then end the container's life by `route` (0 drop,
+	/// 1 mem::forget, 2 into_inner, 3 into_child / get_mut): the key is alive
+	/// exactly as long as the value that owns it
+	ParkKey { cont: u8, route: u8 },
 	/// `lockable::RawLock::poison(&lock)` on stand-alone leaf `leaf` (a safe public
 	/// call): from now on blocking acquisitions of it panic and try_* fails
 	Kill { leaf: usize },
